@@ -996,3 +996,30 @@ Proof.
   - intros st1 q st2 H1 H2. destruct (adv_store_spec _ _ _ _ _ H2) as [E _]. rewrite E. exact H1.
   - intros st' a b HP _ _ _. apply adv_h6_bulk_eq. exact HP.
 Qed.
+
+(* ------------------------------------------------------------------------------------------ *)
+(* the boolean table comparison decides slot-wise equality *)
+Lemma pget_leaf p : pget TLeaf p = None.
+Proof. destruct p; reflexivity. Qed.
+Lemma trie_all_sound t d : trie_all t d = true -> forall p, vval d (pget t p) = d.
+Proof.
+  induction t as [|l IHl v r IHr]; intros H p; [rewrite pget_leaf; reflexivity|].
+  cbn [trie_all] in H. apply andb_true_iff in H. destruct H as [H Hr]. apply andb_true_iff in H. destruct H as [Hl Hv].
+  destruct p as [q|q|]; cbn [pget]; [apply IHr; exact Hr|apply IHl; exact Hl|apply N.eqb_eq; exact Hv].
+Qed.
+Lemma trie_eqb_sound d a : forall b, trie_eqb d a b = true -> forall p, vval d (pget a p) = vval d (pget b p).
+Proof.
+  induction a as [|l1 IHl v1 r1 IHr]; intros b H p.
+  - cbn [trie_eqb] in H. rewrite pget_leaf. cbn [vval]. symmetry. apply trie_all_sound. exact H.
+  - destruct b as [|l2 v2 r2].
+    + cbn [trie_eqb] in H. rewrite (pget_leaf p). cbn [vval]. apply (trie_all_sound (TNode l1 v1 r1) d H).
+    + cbn [trie_eqb] in H. apply andb_true_iff in H. destruct H as [H Hr]. apply andb_true_iff in H. destruct H as [Hl Hv].
+      destruct p as [q|q|]; cbn [pget]; [apply IHr; exact Hr|apply IHl; exact Hl|apply N.eqb_eq; exact Hv].
+Qed.
+Theorem table_eqb_sound a b : table_eqb a b = true -> tlen a = tlen b /\ forall i, tget a i = tget b i.
+Proof.
+  unfold table_eqb. intros H. apply andb_true_iff in H. destruct H as [H He]. apply andb_true_iff in H. destruct H as [Hl Hd].
+  apply N.eqb_eq in Hl. apply N.eqb_eq in Hd. split; [exact Hl|]. intros i. unfold tget. rewrite <- Hl.
+  destruct (i <? tlen a); [|reflexivity]. f_equal.
+  pose proof (trie_eqb_sound (tdef a) (tmap a) (tmap b) He (N.succ_pos i)) as E. unfold vval in E. rewrite <- Hd. exact E.
+Qed.
